@@ -837,8 +837,8 @@ func c15E2Plan(r *core.Run) []c15E2Case {
 			add("small-reads", topo, 100000+jit, "rand", 1)
 			add("small-reads", topo, 300000+jit, "rand", 1, 2, 3, 7, 1, 1, 512, 513)
 			add("small-reads", topo, 70000+jit, "one", 1)
-			add("small-reads", topo, 66000+jit, "512", 1)  // message size == websocket buffer (512 raw bytes = 1024 hex digits)
-			add("small-reads", topo, 66000+jit, "513", 7)  // one byte more than the buffer
+			add("small-reads", topo, 66000+jit, "512", 1) // message size == websocket buffer (512 raw bytes = 1024 hex digits)
+			add("small-reads", topo, 66000+jit, "513", 7) // one byte more than the buffer
 			add("large-write", topo, 1<<20+1+jit, "one", 65536)
 			add("large-write", topo, 4<<20+jit, "one", 1024)
 			add("duplex", topo, 2<<20+jit, "rand", 1024)
